@@ -23,20 +23,6 @@ Definition sb_ok (b : sndbuf) : Prop := SB.Inv b /\ SB.Tight b.
 
 Definition past_fin (s : sender) : Prop := sn_st s <> SReady /\ sn_st s <> SSending.
 
-(* the class of runs the theorems quantify over: feedback for an EMPTY range (only FIN-only frames
-   have one) returns a SendBuf that is still inside the state space verified by C09.  Outside this
-   class: finding F29 (a zero-length run is appended to the boundary list). *)
-Definition good_empty (b : sndbuf) (res : option sndbuf) : Prop :=
-  match res with Some b' => sb_ok b' /\ written b' = written b | None => True end.
-
-Definition in_class (fl : flow) (o : fop) : Prop :=
-  let b := sn_buf (fl_snd fl) in
-  match o with
-  | FAck off len _ => len = 0 -> good_empty b (on_data_acked b off (off + len))
-  | FLose off len _ => len = 0 -> good_empty b (may_loss_data b off (off + len))
-  | _ => True
-  end.
-
 Definition pred_pos (pred : N -> option N) : Prop := forall o a, pred o = Some a -> 1 <= a.
 
 Lemma sb_ok_init w : sb_ok (with_capacity w).
@@ -64,15 +50,19 @@ Proof.
   split; [split; assumption|]. split; [exact P2|]. split; [exact Q3|]. split; [lia|exact Hd].
 Qed.
 
-Lemma sb_ack b s e b' : sb_ok b -> s < e -> on_data_acked b s e = Some b' -> sb_ok b' /\ written b' = written b.
+Lemma sb_ack b s e b' : sb_ok b -> on_data_acked b s e = Some b' -> sb_ok b' /\ written b' = written b.
 Proof.
-  intros [HI HT] Hse E. destruct (SB.step_ack _ _ _ _ HI Hse E) as (A1 & A2 & _ & _ & A5 & _).
+  intros [HI HT] E. destruct (N.leb_spec e s) as [Hes|Hse].
+  { unfold on_data_acked in E. rewrite (proj2 (N.leb_le e s) Hes) in E. injection E as <-. split; [split; assumption|reflexivity]. }
+  destruct (SB.step_ack _ _ _ _ HI Hse E) as (A1 & A2 & _ & _ & A5 & _).
   split; [split; [exact A1|exact (A5 HT)]|exact A2].
 Qed.
 
-Lemma sb_loss b s e b' : sb_ok b -> s < e -> may_loss_data b s e = Some b' -> sb_ok b' /\ written b' = written b.
+Lemma sb_loss b s e b' : sb_ok b -> may_loss_data b s e = Some b' -> sb_ok b' /\ written b' = written b.
 Proof.
-  intros [HI HT] Hse E. destruct (SB.step_loss _ _ _ _ HI Hse E) as (A1 & A2 & _ & _ & A5 & _).
+  intros [HI HT] E. destruct (N.leb_spec e s) as [Hes|Hse].
+  { unfold may_loss_data in E. rewrite (proj2 (N.leb_le e s) Hes) in E. injection E as <-. split; [split; assumption|reflexivity]. }
+  destruct (SB.step_loss _ _ _ _ HI Hse E) as (A1 & A2 & _ & _ & A5 & _).
   split; [split; [exact A1|exact (A5 HT)]|exact A2].
 Qed.
 
@@ -395,17 +385,14 @@ Qed.
 
 Lemma step_acked c s P off len fin d s' ok :
   SI c s P -> In (FrS off len fin d) P ->
-  (len = 0 -> good_empty (sn_buf s) (on_data_acked (sn_buf s) off (off + len))) ->
   snd_on_acked s off len fin = (s', ok) -> SI c s' P /\ snd_mono s s'.
 Proof.
-  intros HS Hin Hcl E. pose proof HS as (Hok & HF & H3 & H4).
+  intros HS Hin E. pose proof HS as (Hok & HF & H3 & H4).
   destruct (frame_range _ _ _ _ _ _ _ HS Hin) as [Hpos Hfin].
   unfold snd_on_acked in E.
   assert (Buf : forall b, on_data_acked (sn_buf s) off (off + len) = Some b ->
                           sb_ok b /\ written b = written (sn_buf s)).
-  { intros b Eb. destruct (N.eq_dec len 0) as [Z|NZ].
-    - specialize (Hcl Z). rewrite Eb in Hcl. exact Hcl.
-    - apply (sb_ack (sn_buf s) off (off + len)); [exact Hok|lia|exact Eb]. }
+  { intros b Eb. apply (sb_ack (sn_buf s) off (off + len)); [exact Hok|exact Eb]. }
   destruct (sn_st s) eqn:Est; try (injection E as <- <-; split; [exact HS|apply snd_mono_refl]).
   - destruct (on_data_acked (sn_buf s) off (off + len)) as [b|] eqn:Eb; [|injection E as <- <-; split; [exact HS|apply snd_mono_refl]].
     destruct (Buf b eq_refl) as [Hb Hw].
@@ -422,17 +409,14 @@ Qed.
 
 Lemma step_lost c s P off len fin d s' ok :
   SI c s P -> In (FrS off len fin d) P ->
-  (len = 0 -> good_empty (sn_buf s) (may_loss_data (sn_buf s) off (off + len))) ->
   snd_may_loss s off len fin = (s', ok) -> SI c s' P /\ snd_mono s s'.
 Proof.
-  intros HS Hin Hcl E. pose proof HS as (Hok & HF & H3 & H4).
+  intros HS Hin E. pose proof HS as (Hok & HF & H3 & H4).
   destruct (frame_range _ _ _ _ _ _ _ HS Hin) as [Hpos Hfin].
   unfold snd_may_loss in E.
   assert (Buf : forall b, may_loss_data (sn_buf s) off (off + len) = Some b ->
                           sb_ok b /\ written b = written (sn_buf s)).
-  { intros b Eb. destruct (N.eq_dec len 0) as [Z|NZ].
-    - specialize (Hcl Z). rewrite Eb in Hcl. exact Hcl.
-    - apply (sb_loss (sn_buf s) off (off + len)); [exact Hok|lia|exact Eb]. }
+  { intros b Eb. apply (sb_loss (sn_buf s) off (off + len)); [exact Hok|exact Eb]. }
   destruct (sn_st s) eqn:Est; try (injection E as <- <-; split; [exact HS|apply snd_mono_refl]).
   - destruct (may_loss_data (sn_buf s) off (off + len)) as [b|] eqn:Eb; [|injection E as <- <-; split; [exact HS|apply snd_mono_refl]].
     destruct (Buf b eq_refl) as [Hb Hw]. injection E as <- <-.
@@ -637,10 +621,10 @@ Proof.
 Qed.
 
 Lemma flow_step_inv c fl P o fl' new out :
-  FI c fl P -> justified P o -> in_class fl o -> flow_step c fl o = (fl', new, out) -> FI c fl' (P ++ new).
+  FI c fl P -> justified P o -> flow_step c fl o = (fl', new, out) -> FI c fl' (P ++ new).
 Proof.
-  intros HFI Hj Hc E. pose proof HFI as [HS HR]. unfold flow_step in E.
-  destruct o as [n| | |err|room|err|pred credit|off d fin|final|err|off len fin| |off len fin]; cbn [justified in_class] in Hj, Hc.
+  intros HFI Hj E. pose proof HFI as [HS HR]. unfold flow_step in E.
+  destruct o as [n| | |err|room|err|pred credit|off d fin|final|err|off len fin| |off len fin]; cbn [justified] in Hj.
   - destruct (snd_poll_write (fl_snd fl) n) as [s' z] eqn:Es. injection E as <- <- <-.
     destruct (step_write _ _ _ _ _ _ HS Es) as [A B]. rewrite <- (app_nil_r P) in A. exact (FI_snd _ _ _ _ _ HFI A B).
   - destruct (snd_poll_flush (fl_snd fl)) as [s' z] eqn:Es. injection E as <- <- <-.
@@ -679,14 +663,14 @@ Proof.
   - destruct Hj as [d Hin].
     destruct (sn_inset (fl_snd fl)); [|injection E as <- <- <-; rewrite app_nil_r; exact HFI].
     destruct (snd_on_acked (fl_snd fl) off len fin) as [s' ok] eqn:Es. injection E as <- <- <-.
-    destruct (step_acked _ _ _ _ _ _ _ _ _ HS Hin Hc Es) as [A B]. rewrite <- (app_nil_r P) in A. exact (FI_snd _ _ _ _ _ HFI A B).
+    destruct (step_acked _ _ _ _ _ _ _ _ _ HS Hin Es) as [A B]. rewrite <- (app_nil_r P) in A. exact (FI_snd _ _ _ _ _ HFI A B).
   - destruct (sn_inset (fl_snd fl)); [|injection E as <- <- <-; rewrite app_nil_r; exact HFI].
     destruct (snd_on_reset_acked (fl_snd fl)) as [s' ok] eqn:Es. injection E as <- <- <-.
     destruct (step_reset_acked _ _ _ _ _ HS Es) as [A B]. rewrite <- (app_nil_r P) in A. exact (FI_snd _ _ _ _ _ HFI A B).
   - destruct Hj as [d Hin].
     destruct (sn_inset (fl_snd fl)); [|injection E as <- <- <-; rewrite app_nil_r; exact HFI].
     destruct (snd_may_loss (fl_snd fl) off len fin) as [s' ok] eqn:Es. injection E as <- <- <-.
-    destruct (step_lost _ _ _ _ _ _ _ _ _ HS Hin Hc Es) as [A B]. rewrite <- (app_nil_r P) in A. exact (FI_snd _ _ _ _ _ HFI A B).
+    destruct (step_lost _ _ _ _ _ _ _ _ _ HS Hin Es) as [A B]. rewrite <- (app_nil_r P) in A. exact (FI_snd _ _ _ _ _ HFI A B).
 Qed.
 
 Lemma FI_init c w : FI c (new_flow w) [].
@@ -703,7 +687,7 @@ Qed.
 Inductive flow_reach (c : N -> Z) : flow -> list fframe -> Prop :=
 | fr_init w : flow_reach c (new_flow w) []
 | fr_step fl P o fl' new out :
-    flow_reach c fl P -> justified P o -> in_class fl o ->
+    flow_reach c fl P -> justified P o ->
     flow_step c fl o = (fl', new, out) -> flow_reach c fl' (P ++ new).
 
 Lemma reach_FI c fl P : flow_reach c fl P -> FI c fl P.
